@@ -364,6 +364,113 @@ theorem installed_db_is_source (E : Ext) (hc : NoCollision E) (due : Bool) (ws :
   have := hsrc hb dbh walhs a4 (by rw [a1]; simp [a2]; omega) (by rw [a1]; simp [a2])
   exact hc db src (by omega) (by rw [a6, this.2])
 
+/-! ### bit corruption -/
+
+/-- the bytes the sink hands to protobuf -/
+def hdrBytes (s : Bytes) : Bytes := (s.drop 4).take (be32 s)
+
+theorem sizes_crc_eq (E : Ext) (hc : NoCollision E) : ∀ (hs : List FileHdr) (ws ws' : List Bytes),
+    SizesMatch ws hs → SizesMatch ws' hs → (∀ p ∈ ws.zip hs, E.crc p.1 = p.2.crc) →
+    (∀ p ∈ ws'.zip hs, E.crc p.1 = p.2.crc) → ws' = ws := by
+  intro hs
+  induction hs with
+  | nil => intro ws ws' h h' _ _; cases h; cases h'; rfl
+  | cons hd tl ih =>
+    intro ws ws' h h' c c'
+    match ws, ws', h, h' with
+    | f :: fs, f' :: fs', .cons h0 hr, .cons h0' hr' =>
+      have a : E.crc f = hd.crc := c (f, hd) (by simp)
+      have b : E.crc f' = hd.crc := c' (f', hd) (by simp)
+      have e1 : f' = f := hc f' f (by omega) (by rw [a, b])
+      have e2 := ih fs fs' hr hr' (fun p hp => c p (by simp [hp])) (fun p hp => c' p (by simp [hp]))
+      rw [e1, e2]
+
+/-- the statement one would like: of all equally long streams whose header decodes to the
+same SnapshotHeader, only one installs -/
+def corruption_fails_full : Prop :=
+  ∀ (E : Ext), NoCollision E → ∀ (s s' db : Bytes) (wals : List Bytes),
+    install E false [s] = .installed db wals → s'.length = s.length → s' ≠ s →
+    be32 s' = be32 s → E.decode (hdrBytes s') = E.decode (hdrBytes s) →
+    ∀ db' wals', install E false [s'] ≠ .installed db' wals'
+
+/-- **data_corruption_fails** (the part that holds): if the length prefix and the header BYTES
+are intact, any change to the file bytes makes the install fail (no CRC collision assumed). -/
+theorem data_corruption_fails (E : Ext) (hc : NoCollision E) (s s' db : Bytes) (wals : List Bytes)
+    (h : install E false [s] = .installed db wals) (hne : s' ≠ s)
+    (hpre : s'.take (4 + be32 s) = s.take (4 + be32 s)) :
+    ∀ db' wals', install E false [s'] ≠ .installed db' wals' := by
+  intro db' wals' h'
+  obtain ⟨hr, _, _⟩ := install_implies_restore E false s db wals h
+  obtain ⟨hr', _, _⟩ := install_implies_restore E false s' db' wals' h'
+  obtain ⟨dbh, walhs, h1, h2, hd, h3, hdb, hcrc, hw⟩ := restore_cases E s db wals hr
+  obtain ⟨dbh', walhs', h1', h2', hd', h3', hdb', hcrc', hw'⟩ := restore_cases E s' db' wals' hr'
+  have hn : be32 s' = be32 s := by
+    have a : be32 (s'.take (4 + be32 s)) = be32 s' := be32_take s' _ (by omega)
+    have b : be32 (s.take (4 + be32 s)) = be32 s := be32_take s _ (by omega)
+    calc be32 s' = be32 (s'.take (4 + be32 s)) := a.symm
+      _ = be32 (s.take (4 + be32 s)) := by rw [hpre]
+      _ = be32 s := b
+  have hhb : (s'.drop 4).take (be32 s) = (s.drop 4).take (be32 s) := by
+    have a : (s'.drop 4).take (be32 s) = ((s'.take (4 + be32 s)).drop 4) := by
+      rw [List.drop_take]; congr 1; omega
+    have b : (s.drop 4).take (be32 s) = ((s.take (4 + be32 s)).drop 4) := by
+      rw [List.drop_take]; congr 1; omega
+    rw [a, b, hpre]
+  rw [hn, hhb, hd] at hd'
+  have hp := congrArg SnapHeader.payload (Option.some.inj hd')
+  simp only [Payload.full.injEq, Option.some.injEq] at hp
+  obtain ⟨rfl, rfl⟩ := hp
+  obtain ⟨e1, e2, e3⟩ := restoreWals_sound E _ _ _ _ hw
+  obtain ⟨e1', e2', e3'⟩ := restoreWals_sound E _ _ _ _ hw'
+  rw [hn] at h3' hdb' e1'
+  simp only [List.append_nil] at e1 e1'
+  have hdbl : db.length = dbh.size := by rw [hdb]; simp only [List.length_take]; omega
+  have hdbl' : db'.length = dbh.size := by rw [hdb']; simp only [List.length_take]; omega
+  have edb : db' = db := hc db' db (by omega) (by rw [hcrc, hcrc'])
+  have ewals : wals' = wals := sizes_crc_eq E hc walhs wals wals' e2 e2' e3 e3'
+  -- both streams are prefix ++ db ++ wals
+  have body : s.drop (4 + be32 s) = db ++ wals.flatten := by rw [← e1, hdb, List.take_append_drop]
+  have body' : s'.drop (4 + be32 s) = db' ++ wals'.flatten := by rw [← e1', hdb', List.take_append_drop]
+  apply hne
+  calc s' = s'.take (4 + be32 s) ++ s'.drop (4 + be32 s) := (List.take_append_drop _ _).symm
+    _ = s.take (4 + be32 s) ++ s.drop (4 + be32 s) := by rw [hpre, body, body', edb, ewals]
+    _ = s := List.take_append_drop _ _
+
+/-- toy externals with an injective "checksum" and a decoder that ignores the second byte -/
+def byteNat : Bytes → Nat
+  | [] => 0
+  | x :: t => x.toNat + 256 * byteNat t
+
+theorem byteNat_inj : ∀ x y : Bytes, x.length = y.length → byteNat x = byteNat y → x = y := by
+  intro x
+  induction x with
+  | nil => intro y hl _; cases y <;> simp_all
+  | cons a t ih =>
+    intro y hl he
+    cases y with
+    | nil => simp at hl
+    | cons b u =>
+      simp only [byteNat] at he
+      have ha := a.toNat_lt; have hb := b.toNat_lt
+      have h1 : a.toNat = b.toNat := by omega
+      have h2 : byteNat t = byteNat u := by omega
+      rw [ih u (by simpa using hl) h2, UInt8.toNat_inj.1 h1]
+
+def witDb : Bytes := [83, 81, 76]
+def witExt : Ext :=
+  { decode := fun b => if b.take 1 = [7] then some ⟨1, .full (some ⟨3, byteNat witDb⟩) []⟩ else none,
+    crc := byteNat, validDb := fun _ => true, validWal := fun _ => true }
+
+/-- **witness**: two different header byte strings that protobuf decodes to the same header
+(e.g. a uint32 varint with a flipped bit above bit 31) both install: a corrupted header
+byte can go unnoticed (the installed data is identical) -/
+theorem corruption_fails_witness : ¬ corruption_fails_full := by
+  intro h
+  have := h witExt (fun x y hl he => byteNat_inj x y hl he)
+    (frame [7, 7] [witDb]) (frame [7, 8] [witDb]) witDb [] (by decide) (by decide) (by decide)
+    (by decide) (by decide) witDb []
+  exact this (by decide)
+
 /-- transport compression is transparent for any codec with the round-trip law -/
 theorem compression_transparent (E : Ext) (due : Bool) (comp decomp : Bytes → Bytes)
     (hlaw : ∀ x, decomp (comp x) = x) (s : Bytes) :
